@@ -440,7 +440,7 @@ class AsynchronousDeferredRunTest(_DeferredRunTest):
                 f = debug_info.failResult
                 info = debug_info._getDebugTracebacks()
                 if info:
-                    self.case.addDetail(
+                    self.case.addDetailUniqueName(
                         "unhandled-error-in-deferred-debug", text_content(info)
                     )
                 self._got_user_failure(f, "unhandled-error-in-deferred")
